@@ -21,7 +21,9 @@ use crate::c01::align_util::*;
 use crate::util::*;
 use bio::alignment::pairwise::banded::Aligner;
 use bio::alignment::pairwise::MIN_SCORE;
-use bio::alignment::sparse::{find_kmer_matches, hash_kmers};
+use bio::alignment::sparse::{
+    expand_kmer_matches, find_kmer_matches, find_kmer_matches_seq2_hashed, hash_kmers, sdpkpp, sdpkpp_union_lcskpp_path,
+};
 use bio::alignment::Alignment;
 
 /// the source text this harness was compiled against (bio-src points to the tree under test)
@@ -282,6 +284,89 @@ fn run(al: &mut Aligner<TabFn>, c: &Call, k: usize) -> Alignment {
     }
 }
 
+/// The band the call left in the aligner, read through the public `Debug` implementation (`Band` and the field are
+/// private): `bd:<rows>:<cols>:<start>.<end>+<start>.<end>+…` (one range per column), `bd:unreadable` if the text does
+/// not have the derived shape `band: Band { rows: R, cols: C, ranges: [a..b, …] }`.
+fn band_obs(al: &Aligner<TabFn>) -> String {
+    let s = format!("{:?}", al);
+    let parse = || -> Option<String> {
+        let at = s.rfind("band: Band { rows: ")?;
+        let t = &s[at + "band: Band { rows: ".len()..];
+        let (rows, t) = t.split_once(", cols: ")?;
+        let (cols, t) = t.split_once(", ranges: [")?;
+        let (body, _) = t.split_once(']')?;
+        let rows: usize = rows.trim().parse().ok()?;
+        let cols: usize = cols.trim().parse().ok()?;
+        let mut rs = vec![];
+        if !body.trim().is_empty() {
+            for r in body.split(", ") {
+                let (a, b) = r.trim().split_once("..")?;
+                let (a, b): (usize, usize) = (a.parse().ok()?, b.parse().ok()?);
+                rs.push(format!("{}.{}", a, b));
+            }
+        }
+        Some(format!("bd:{}:{}:{}", rows, cols, if rs.is_empty() { "-".to_string() } else { rs.join("+") }))
+    };
+    parse().unwrap_or_else(|| "bd:unreadable".to_string())
+}
+
+/// The k-mer matches and the match path the entry point hands to `Band::create_from_match_path`, recomputed here with
+/// the same public `sparse` functions the entry point calls (`DEFAULT_MATCH_SCORE` = 2: `match_scores` is `None` for
+/// every scoring this harness builds).  `mt:<x.y+…|->,pt:<i+…|->`
+fn backbone(c: &Call, k: usize, go: i32, ge: i32) -> String {
+    let (x, y) = (&c.x[..], &c.y[..]);
+    let sdp = |ms: &[(u32, u32)]| -> Vec<usize> {
+        if ms.is_empty() {
+            vec![]
+        } else {
+            sdpkpp(ms, k, 2, go, ge).path
+        }
+    };
+    let (ms, path): (Vec<(u32, u32)>, Vec<usize>) = match c.entry.as_str() {
+        "prehash" | "sgprehash" => {
+            let h = hash_kmers(y, k);
+            let ms = find_kmer_matches_seq2_hashed(x, &h, k);
+            let p = sdp(&ms);
+            (ms, p)
+        }
+        "sm" => {
+            let ms = subset(&find_kmer_matches(x, y, k), c.args[0].parse().unwrap());
+            let p = sdp(&ms);
+            (ms, p)
+        }
+        "fm" => {
+            let ms = parse_pairs(&c.args[0]).unwrap();
+            let p = sdp(&ms);
+            (ms, p)
+        }
+        "exp" => {
+            let ms = subset(&find_kmer_matches(x, y, k), c.args[2].parse().unwrap());
+            let ms = if c.args[0] == "n" { ms } else { expand_kmer_matches(x, y, k, &ms, c.args[0].parse::<usize>().unwrap()) };
+            let p = if ms.is_empty() {
+                vec![]
+            } else if c.args[1] == "1" {
+                sdpkpp_union_lcskpp_path(&ms, k, 2, go, ge)
+            } else {
+                sdp(&ms)
+            };
+            (ms, p)
+        }
+        "path" => {
+            let ms = subset(&find_kmer_matches(x, y, k), c.args[0].parse().unwrap());
+            let p = chain(&ms, c.args[1].parse().unwrap(), k);
+            (ms, p)
+        }
+        _ => {
+            let ms = find_kmer_matches(x, y, k);
+            let p = sdp(&ms);
+            (ms, p)
+        }
+    };
+    let mt = if ms.is_empty() { "-".to_string() } else { ms.iter().map(|(a, b)| format!("{}.{}", a, b)).collect::<Vec<_>>().join("+") };
+    let pt = if path.is_empty() { "-".to_string() } else { path.iter().map(|i| i.to_string()).collect::<Vec<_>>().join("+") };
+    format!("mt:{},pt:{}", mt, pt)
+}
+
 pub fn exec(toks: &[&str]) -> Result<String, String> {
     if toks == ["const"] {
         return Ok(format!("min:{}", MIN_SCORE));
@@ -340,7 +425,13 @@ pub fn exec(toks: &[&str]) -> Result<String, String> {
                 "differs"
             }
         };
-        outs.push(format!("{},h:{}", aln_string(&a), h));
+        // band observation and backbone (not for the two large budget cases)
+        let extra = if c.entry == "big" {
+            "bd:skip".to_string()
+        } else {
+            format!("{},{}", band_obs(&al), backbone(c, k, sc.go, sc.ge))
+        };
+        outs.push(format!("{},h:{},{}", aln_string(&a), h, extra));
     }
     Ok(outs.join(";"))
 }
